@@ -63,6 +63,17 @@ static void enumerateAll(const std::function<void(const Spec &)> &f) {
       }
     });
   }
+  // medium-size family (12..40 cells, fixed column / comb of fixed blocks / terminal): every 12th member x {each stage alone,
+  // the whole flow} with an observing callback
+  {
+    MediumCfg mc;
+    mc.stride = gThorough ? 4 : 12;
+    enumerateMedium(mc, [&](const Spec &m) {
+      Spec u = m;
+      u.devs.push_back({F_maxNbSteps, 6});
+      for (int seq : {1, 2, 3, 1 + 4 * 2 + 16 * 3}) { Spec t = u; t.aux = seq; t.aux2 = 1; f(t); }
+    });
+  }
   // tiny-circuit alphabet with every fixed-cell deviation (legalize / detailed only make sense here, but all stages are run)
   Cfg b;
   b.rhs = {2};
@@ -94,6 +105,15 @@ static void enumerateAll(const std::function<void(const Spec &)> &f) {
         Spec t = u; t.aux = seq; t.aux2 = 1; f(t);
       }
       { Spec t = u; t.aux = 3; t.aux2 = 2; f(t); }
+      // a bank of fixed cells with consecutive indices in front of the movable ones: [fixed, fixed, movable, ...]
+      if (s1.cells.size() != base.cells.size() && s1.cells[0].fixed && !base.cells[0].fixed) {
+        Spec b2 = u;
+        CellSpec extra = b2.cells[0];
+        extra.x += 7; extra.y -= 3;
+        b2.cells.insert(b2.cells.begin() + 1, extra);
+        for (auto &nt : b2.nets) for (auto &p : nt.pins) if (p[0] >= 1) p[0] += 1;
+        for (int seq : {2, 3, 1 + 4 * 2}) { Spec t = b2; t.aux = seq; t.aux2 = 1; f(t); }
+      }
     });
   });
 }
@@ -171,7 +191,7 @@ int main(int argc, char **argv) {
   c.level = "exploration";
   c.rule =
       "global-placement alphabet (1/12, thorough 1/3 of it; fixed cells: terminals with nets, obstruction inside / outside, non-obstruction block) and tiny-circuit alphabet with every "
-      "fixed-cell deviation (20-shape menu before/after the movable cells, a movable cell made fixed) x every stage sequence over {placeGlobal, legalize, placeDetailed} of length "
+      "fixed-cell deviation (20-shape menu before/after the movable cells, a bank of two fixed cells in front, a movable cell made fixed) x every stage sequence over {placeGlobal, legalize, placeDetailed} of length "
       "<= 2 (thorough 3) x {no callback, observing callback} + accepted and rejected parameter sets + every single deviation of the 68-entry global-placement parameter menu and of the detailed-placement menu on a third of the picked circuits + callback throwing at every index of single-stage runs; oracle: every public "
       "getter snapshotted before each call and compared after return or catch and inside every callback: sizes, flags, polarities, nets, offsets, weights (bitwise), rows, and "
       "x/y/orientation of fixed cells; all orientations after placeGlobal; non-trivial = a fixed cell is present and a cell moved";
